@@ -1,2 +1,70 @@
-(* C13 — stub *)
+(* C13 -- the wire-level link: the oracle the driver runs accepts the model's observation
+   on every valid case.  (Flat multi-syncers: Multi.v; combinator programs: Comb.v; the
+   writers: Writers.v; Lock under every schedule: Mutex.v.) *)
+From Coq Require Import List ZArith Bool Lia ZifyBool.
+From Coq.Strings Require Import Byte.
+Import ListNotations.
 From Zap Require Import Base.Wire C13.Model.
+From Zap Require Export C13.Multi C13.Comb C13.Writers C13.Mutex.
+Local Open Scope Z_scope.
+
+Lemma sx_eqb_refl : forall x, sx_eqb x x = true.
+Proof.
+  fix IH 1. intros [z|b|l]; cbn [sx_eqb].
+  - apply Z.eqb_refl.
+  - now apply bytes_eqb_eq.
+  - induction l as [|a l IHl]; [reflexivity|]. now rewrite IH, IHl.
+Qed.
+
+Lemma is_prefix_app a rest : is_prefix a (a ++ rest) = true.
+Proof. induction a as [|x a IH]; [reflexivity|]. cbn [app is_prefix]. now rewrite byte_eqb_refl, IH. Qed.
+Lemma sink_bytes_enc ev : sink_bytes (SL (map enc_sev ev)) = sink_of ev.
+Proof.
+  unfold sink_bytes, sink_of. cbn [sx_l]. rewrite map_map. f_equal. apply map_ext. intros [b|]; reflexivity.
+Qed.
+
+Lemma wire_stdlog i : wf_stdlog i = true -> spec_stdlog i (model_stdlog i) = true.
+Proof.
+  unfold wf_stdlog, spec_stdlog, model_stdlog. cbn [stdlog_write]. unfold trim_space.
+  intros H. destruct (all_ascii (sx_b (sx_nth i 3))).
+  - apply bytes_eqb_eq in H. rewrite <- H. apply sx_eqb_refl.
+  - apply sx_eqb_refl.
+Qed.
+Lemma wire_testing i : spec_testing i (model_testing i) = true.
+Proof.
+  unfold spec_testing, model_testing. rewrite testing_accept.
+  cbn [sx_nth sx_l nth of_blist map length Nat.eqb]. rewrite !sx_eqb_refl, testing_stripped. reflexivity.
+Qed.
+Lemma wire_zapio i : spec_zapio i (model_zapio i) = true.
+Proof. unfold spec_zapio, model_zapio. rewrite zapio_accept. apply sx_eqb_refl. Qed.
+Lemma wire_bws i : (0 <=? sx_z (sx_nth i 2)) = true -> spec_bws i (model_bws i) = true.
+Proof.
+  intros H. unfold spec_bws, model_bws.
+  assert (Hs : 0 <= sx_z (sx_nth i 2)) by (apply Z.leb_le; exact H).
+  pose proof (eff_size_pos _ Hs) as Hp.
+  destruct (bws_run_spec (eff_size (sx_z (sx_nth i 2))) Hp
+              (map dec_bop (sx_l (sx_nth i 3))) bws0) as (H1 & rest & H2).
+  { cbn [bws0 b_buf]. rewrite zlen_nil. lia. }
+  destruct (bws_run _ bws0 _) as [ns ev]. cbn [fst snd] in H1, H2. cbn [b_buf bws0 app] in H2.
+  cbn [sx_nth sx_l nth]. rewrite H1, !sx_eqb_refl, sink_bytes_enc, <- H2, is_prefix_app. reflexivity.
+Qed.
+Lemma wire_lock i : wf_lock i = true -> spec_lock i (model_lock i) = true.
+Proof.
+  unfold wf_lock, spec_lock, model_lock. intros H. apply Nat.eqb_eq in H.
+  destruct (lock_mutex_prog (dec_prog (sx_nth i 1)) (dec_sched (sx_nth i 2))) as (_ & Hm & _).
+  cbn [sx_nth sx_l nth sx_z of_nat]. rewrite H, sx_eqb_refl.
+  apply andb_true_iff; split; [apply andb_true_iff; split|reflexivity]; lia.
+Qed.
+
+Theorem spec_model i : wf i = true -> spec i (model i) = true.
+Proof.
+  unfold wf, spec, model. intros H.
+  destruct (kind i =? 1).
+  - unfold wf_comb in H. apply andb_true_iff in H as [H Hd]. apply andb_true_iff in H as [_ Ht].
+    now apply spec_comb_model.
+  - destruct (kind i =? 2).
+    + destruct (wkind i =? 0); [now apply wire_stdlog|].
+      destruct (wkind i =? 1); [apply wire_testing|].
+      destruct (wkind i =? 2); [apply wire_zapio|]. now apply wire_bws.
+    + now apply wire_lock.
+Qed.
